@@ -1,38 +1,77 @@
-import FstVerif.Model.Crc
+import FstVerif.Proofs.Crc
+import FstVerif.Proofs.Open
 /-
-C08 — checksums. (`C08_slice16`, `C08_chunking`, `C08_single_byte` are in
-Proofs/Crc.lean; here: the unit laws of the checksummer.)
+C08 — checksums. Statements here; proofs in Proofs/Crc.lean against the
+bit-by-bit definition of CRC-32C in Spec/Crc.lean. The tables the proofs talk
+about (`Gen.CRC_TABLE`, `Gen.CRC_TABLE16`) are regenerated from the compiled
+crate on every run; `C08_tables_pinned` re-proves that they are the Castagnoli
+tables.
 -/
-namespace Fst
+namespace Fst.Props
+open Fst
 
-/-- updating with no bytes is the identity -/
-theorem C08_update_nil (s : Summer) : s.update [] = s := by
-  cases s with
-  | mk sum => simp [Summer.update, crc32cSlice16, crcLoop]
+/-- the tables compiled into the crate are the CRC-32C (Castagnoli) tables -/
+theorem C08_tables_pinned : Gen.CRC_TABLE = Spec.makeTable ∧ Gen.CRC_TABLE16 = Spec.makeTable16 :=
+  Fst.tables_pinned
 
-/-- the checksum of a buffer shorter than 16 bytes is the plain byte fold (tail loop) -/
-theorem C08_short_is_fold (prev : UInt32) (buf : List UInt8) (h : buf.length < 16) :
-    crc32cSlice16 prev buf = ~~~ (buf.foldl crcByte (~~~ prev)) := by
-  unfold crc32cSlice16
-  congr 1
-  match buf, h with
-  | [], _ => rfl
-  | [_], _ => rfl
-  | [_, _], _ => rfl
-  | [_, _, _], _ => rfl
-  | [_, _, _, _], _ => rfl
-  | [_, _, _, _, _], _ => rfl
-  | [_, _, _, _, _, _], _ => rfl
-  | [_, _, _, _, _, _, _], _ => rfl
-  | [_, _, _, _, _, _, _, _], _ => rfl
-  | [_, _, _, _, _, _, _, _, _], _ => rfl
-  | [_, _, _, _, _, _, _, _, _, _], _ => rfl
-  | [_, _, _, _, _, _, _, _, _, _, _], _ => rfl
-  | [_, _, _, _, _, _, _, _, _, _, _, _], _ => rfl
-  | [_, _, _, _, _, _, _, _, _, _, _, _, _], _ => rfl
-  | [_, _, _, _, _, _, _, _, _, _, _, _, _, _], _ => rfl
-  | [_, _, _, _, _, _, _, _, _, _, _, _, _, _, _], _ => rfl
-  | _ :: _ :: _ :: _ :: _ :: _ :: _ :: _ :: _ :: _ :: _ :: _ :: _ :: _ :: _ :: _ :: _, h =>
-    exact absurd h (by simp only [List.length_cons]; omega)
+/-- slice-by-16 = bitwise CRC-32C, for every buffer of every length (both sides of the 16-byte fast path) -/
+theorem C08_slice16 (prev : UInt32) (buf : List UInt8) :
+    crc32cSlice16 prev buf = Spec.crcBitwise prev buf := Fst.C08_slice16 prev buf
 
-end Fst
+/-- the mask is the Snappy-style mask -/
+theorem C08_mask (x : UInt32) : maskedSum x = Spec.mask x := Fst.maskedSum_eq_mask x
+
+/-- the checksum does not depend on how the data was chunked while being written -/
+theorem C08_chunking (s : Summer) (a b : List UInt8) : (s.update a).update b = s.update (a ++ b) :=
+  Fst.C08_chunking s a b
+
+/-- altering any single byte changes the masked checksum of the data -/
+theorem C08_single_byte (s : Summer) (pre post : List UInt8) (x y : UInt8) (hxy : x ≠ y) :
+    (s.update (pre ++ x :: post)).masked ≠ (s.update (pre ++ y :: post)).masked :=
+  Fst.C08_summer_single_byte s pre post x y hxy
+
+/-- so does any burst of up to four bytes -/
+theorem C08_burst (pre post w1 w2 : List UInt8) (hl : w1.length = w2.length) (h4 : w1.length ≤ 4)
+    (hne : w1 ≠ w2) (prev : UInt32) :
+    maskedSum (crc32cSlice16 prev (pre ++ w1 ++ post)) ≠ maskedSum (crc32cSlice16 prev (pre ++ w2 ++ post)) :=
+  Fst.C08_masked_burst pre post w1 w2 hl h4 hne prev
+
+/-- corruption is never certified: if a file opens and verifies, then every file that
+differs from it in exactly one byte BEFORE the trailing checksum and still opens with
+the same stored checksum reports a mismatch -/
+theorem C08_corruption_detected (pre post : List UInt8) (x y : UInt8) (hxy : x ≠ y) (ck : List UInt8)
+    (hck : ck.length = 4) (m m' : Meta)
+    (ho : fstNew (Src.ofList (pre ++ x :: post ++ ck)) = .ok m)
+    (ho' : fstNew (Src.ofList (pre ++ y :: post ++ ck)) = .ok m')
+    (hsame : m'.checksum = m.checksum)
+    (hv : fstVerify m (Src.ofList (pre ++ x :: post ++ ck)) = .ok ()) :
+    fstVerify m' (Src.ofList (pre ++ y :: post ++ ck)) ≠ .ok () := by
+  rw [OpenProofs.verify_eq _ _ ho] at hv
+  rw [OpenProofs.verify_eq _ _ ho']
+  have tk : ∀ (l : List UInt8), (l ++ ck).take ((l ++ ck).length - 4) = l := by
+    intro l
+    have : (l ++ ck).length - 4 = l.length := by simp [hck]
+    rw [this]; simp
+  have t1 := tk (pre ++ x :: post)
+  have t2 := tk (pre ++ y :: post)
+  simp only [List.append_assoc, List.cons_append] at t1 t2 hv ⊢
+  rw [t1] at hv
+  rw [t2, hsame]
+  cases hc : m.checksum with
+  | none => simp [hc] at hv
+  | some e =>
+    simp only [hc] at hv ⊢
+    split at hv
+    · rename_i he
+      have hne := Fst.C08_masked_single_byte pre post x y hxy 0
+      intro h
+      split at h
+      · rename_i he'
+        apply hne
+        have : (maskedSum (crc32cSlice16 0 (pre ++ x :: post))).toNat =
+            (maskedSum (crc32cSlice16 0 (pre ++ y :: post))).toNat := by rw [← he, ← he']
+        exact UInt32.toNat_inj.mp this
+      · cases h
+    · cases hv
+
+end Fst.Props
